@@ -226,7 +226,7 @@ def gen_track(rng, ppq, n_events, wf=True):
             else:
                 evs.append((6, c2, delta, note, 0, None, None, None, None, None))
         elif k < 0.8:
-            n_, d_ = rng.choice([(4, 4), (3, 4), (6, 8), (5, 4)])
+            n_, d_ = G.any_sig(rng)
             evs.append((3, None, delta, None, None, None, None, n_, d_, None))
         elif k < 0.9:
             evs.append((2, None, delta, None, None, None, None, None, None, rng.choice(KEYNAMES)))
